@@ -4,5 +4,5 @@ CONSTANTS
   Matchers <- mcMatchers
   MaxMs = 3
   EmitCases = FALSE
-INVARIANTS OnlyTargetsChange MaskedIndependence FailuresNamed
+INVARIANTS OnlyTargetsChange FailuresNamed
 CHECK_DEADLOCK FALSE
